@@ -238,11 +238,28 @@ fn eval_inner(c: &Case, obs: &mut Obs) -> Verdict {
                     vensure!(chunk_ok, "ServerSession::new accepted chunk size {} (outside 1..=2^31-1)", chunk);
                     // drive connect + accept with the reference peer
                     let mut outdec = OutDec::new();
+                    let (mut a_chunk, mut a_window, mut a_bw, mut a_bwdone) = (Vec::new(), Vec::new(), Vec::new(), 0u32);
                     for (b, d) in split_server(init).packets {
-                        if let Err(e) = outdec.packet(&b, d) {
-                            vfail!("constructor packets undecodable: {}", e);
+                        match outdec.packet(&b, d) {
+                            Ok(ms) => {
+                                for m in ms {
+                                    match &m.rm {
+                                        Ok(RM::SetChunkSize(v)) => a_chunk.push(*v),
+                                        Ok(RM::WindowAck(v)) => a_window.push(*v),
+                                        Ok(RM::PeerBw(v, _)) => a_bw.push(*v),
+                                        Ok(RM::Command(n, _, _, _)) if n.build() == "onBWDone" => a_bwdone += 1,
+                                        _ => {}
+                                    }
+                                }
+                            }
+                            Err(e) => vfail!("constructor packets undecodable: {}", e),
                         }
                     }
+                    // honoured = it reaches the peer
+                    vensure!(a_chunk == vec![*chunk], "configured chunk_size {} accepted but not announced by the server (announced: {:?})", chunk, a_chunk);
+                    vensure!(a_window == vec![*window], "configured window_ack_size {} accepted but not announced by the server (announced: {:?})", window, a_window);
+                    vensure!(a_bw == vec![*bandwidth], "configured peer_bandwidth {} accepted but not announced by the server (announced: {:?})", bandwidth, a_bw);
+                    vensure!(a_bwdone == *bwdone as u32, "send_on_bw_done_message_on_start = {} but {} onBWDone command(s) were sent", bwdone, a_bwdone);
                     let mut peer = PeerEnc::new();
                     let connect = peer.send(&command("connect", 1.0, obj(vec![("app", st("live"))]), vec![]), 0, 0);
                     let evs = match s.handle_input(&connect) {
@@ -365,6 +382,13 @@ fn eval_inner(c: &Case, obs: &mut Obs) -> Verdict {
             if !refused {
                 // the server accepts: this is where the client applies its chunk size
                 let mut peer = PeerEnc::new();
+                // the server's greeting first; it happens to announce the very values the client is
+                // configured with (a configuration value is honoured whatever the peer's values are)
+                let mut greeting = peer.send(&RM::WindowAck((*window).max(1)), 0, 0);
+                greeting.extend(peer.send(&RM::PeerBw(*window, 2), 0, 0));
+                if let Err(e) = cs.handle_input(&greeting) {
+                    vfail!("the server's greeting (window {}) failed: {:?}", window, e);
+                }
                 let result = peer.send(&command("_result", 1.0, obj(vec![("fmsVer", st("FMS/3,0,1,123"))]), vec![obj(vec![("code", st("NetConnection.Connect.Success"))])]), 0, 0);
                 match cs.handle_input(&result) {
                     Err(e) => {
@@ -374,11 +398,25 @@ fn eval_inner(c: &Case, obs: &mut Obs) -> Verdict {
                     }
                     Ok(r) => {
                         vensure!(chunk_ok, "the client applied chunk size {} (outside 1..=2^31-1) without an error", chunk);
+                        let mut announced_window: Vec<u32> = Vec::new();
+                        let mut announced_chunk: Vec<u32> = Vec::new();
                         for (b, d) in split_client(r).packets {
-                            if let Err(e) = outdec.packet(&b, d) {
-                                vfail!("packets after the connect result undecodable: {}", e);
+                            match outdec.packet(&b, d) {
+                                Ok(ms) => {
+                                    for m in ms {
+                                        match &m.rm {
+                                            Ok(RM::WindowAck(v)) => announced_window.push(*v),
+                                            Ok(RM::SetChunkSize(v)) => announced_chunk.push(*v),
+                                            _ => {}
+                                        }
+                                    }
+                                }
+                                Err(e) => vfail!("packets after the connect result undecodable: {}", e),
                             }
                         }
+                        // honoured = it reaches the peer: the window and the chunk size are announced
+                        vensure!(announced_window == vec![*window], "the configured window_ack_size {} is neither refused nor announced to the server after the connection was accepted (announced: {:?}; the server had announced the same value)", window, announced_window);
+                        vensure!(announced_chunk == vec![*chunk], "the configured chunk_size {} is neither refused nor announced after the connection was accepted (announced: {:?})", chunk, announced_chunk);
                     }
                 }
             }
